@@ -440,7 +440,7 @@ fn lifecycle_cases(rep: &mut Report, model: &mut Model, rng: &mut Rng, n: u64) {
 
 async fn wait_ended(data_dir: &std::path::Path, session_id: &str, linked: bool) {
     let want = if linked { "continuity_run_ended" } else { "session_ended" };
-    for _ in 0..700 {
+    for _ in 0..2000 {
         let text = std::fs::read_to_string(data_dir.join("events.jsonl")).unwrap_or_default();
         if text.lines().any(|l| l.contains(want) && l.contains(session_id)) {
             return;
